@@ -180,7 +180,30 @@ func (c *Ctx) startupReconciliation(specs ...reconSpec) {
 			if !isC || k != 0 {
 				return
 			}
-			if call, ok := b.X.(*ssa.Call); ok && call.Call.IsInvoke() && call.Call.Method.Name() == "Size" {
+			// (the size itself, also when a result variable of a helper
+			// carried it here)
+			var isSize func(v ssa.Value, d int) bool
+			isSize = func(v ssa.Value, d int) bool {
+				v = ir.Strip(v)
+				if call, ok := v.(*ssa.Call); ok && call.Call.IsInvoke() && call.Call.Method.Name() == "Size" {
+					return true
+				}
+				if ph, ok := v.(*ssa.Phi); ok && d < 3 {
+					found := false
+					for _, e := range ph.Edges {
+						if _, isC := e.(*ssa.Const); isC {
+							continue
+						}
+						if !isSize(e, d+1) {
+							return false
+						}
+						found = true
+					}
+					return found
+				}
+				return false
+			}
+			if isSize(b.X, 0) {
 				emptyCmp = append(emptyCmp, in)
 			}
 		})
